@@ -169,6 +169,21 @@ Theorem recover_guard_is_exercised :
                snd (step o s LShutdownCall) = [ARecovered]).
 Proof. exact recover_exercised_l. Qed.
 
+(* ---- pending events are never dropped ----------------------------------------------------------------- *)
+(* Watcher notifications (any number of them pending: one in the resolver's 1-slot channel, the
+   others as blocked provider goroutines) and senders on asyncErrorChannel form FIFO queues: a label
+   either leaves the queue alone, appends to it, or — only Run, in the select, taking that branch —
+   removes the HEAD and acts on it (watch error / async error: shutdown(); change: reload).  So a
+   watch error sent right behind a pending change is still there when the reload is over. *)
+Theorem pending_notifications_never_dropped : forall o s l,
+  let s' := fst (step o s l) in
+  ((exists x, st_watch s' = st_watch s ++ x) \/
+   (l = LRun BrWatch /\ st_pc s = PSelect /\
+    exists e, st_watch s = e :: st_watch s' /\ st_pc s' = (if e then PFinal false else PReload))) /\
+  ((exists x, st_async s' = st_async s ++ x) \/
+   (l = LRun BrAsync /\ st_pc s = PSelect /\ exists e, st_async s = e :: st_async s' /\ st_pc s' = PFinal false)).
+Proof. exact (fun o s l => conj (watch_fifo_l o s l) (async_fifo_l o s l)). Qed.
+
 Print Assumptions phase_order.
 Print Assumptions phase_order_in_words.
 Print Assumptions one_live_service.
@@ -186,3 +201,4 @@ Print Assumptions failure_returns_error.
 Print Assumptions reload_failure_not_closed.
 Print Assumptions shutdown_idempotent_safe.
 Print Assumptions recover_guard_is_exercised.
+Print Assumptions pending_notifications_never_dropped.
